@@ -375,6 +375,14 @@ def op_new(op, world, ctx):
                   k=cfg["k"])
     elif kind == "bits":
         store.put(name, "bits", numpy.array([int(c) for c in op["bits"]], dtype=int))
+    elif kind == "xgraph":
+        # a tiny graph (one arc, a loop, a two-cycle, ...) held by the constructor client only (kinds no one else picks)
+        rows = G.arcs_to_rows(op["arcs"], op["k"])
+        store.put(name + ".acc", "xacc", make_accessor(rows), k=op["k"], graph=name)
+        store.put(name + ".lm", "xlm", lm_from_rows(rows), k=op["k"], graph=name)
+    elif kind in ("motifs", "gcr"):
+        # the caller's own list of undesired motifs / [low, high] G+C bounds, handed to filter constructors by reference
+        store.put(name, kind, list(op["items"]), k=op["k"])
     elif kind == "strand":
         store.put(name, "strand", op["s"])
     elif kind == "pair-adopt":
@@ -503,6 +511,9 @@ def store_results(op, world, out):
         elif kind == "bits":
             if isinstance(item, numpy.ndarray):
                 store.put(name, "bits", item)
+        elif kind == "cfilter":
+            if hasattr(item, "valid"):
+                store.put(name, "cfilter", item, k=spec["k"])
         for added in set(store.objs) - before_names:
             if not added.endswith(".lm") or kind == "lm":
                 world.owned.add(added)
